@@ -175,7 +175,20 @@ def gen_case(prop, seed, tier):
     # (a reusable optimizer fingerprints these alike or almost alike; the answer must still be the query's own)
     for _ in range(sw.choice([0, 1, 1, 2])):
         src = pool[sw.randrange(len(pool))]
-        if len(src["output"]) >= 2 and sw.random() < 0.6:
+        r_tw = sw.random()
+        cands_t = [i for i, t in enumerate(src["inputs"]) if len(set(t)) >= 2]
+        if r_tw < 0.3 and cands_t:
+            # the same network with the axes of one operand in another order (a transposed operand)
+            i = sw.choice(cands_t)
+            t2 = list(src["inputs"][i])
+            for _k in range(6):
+                sw.shuffle(t2)
+                if t2 != list(src["inputs"][i]):
+                    break
+            ins = [list(t) for t in src["inputs"]]
+            ins[i] = t2
+            pool.append({"inputs": ins, "output": list(src["output"]), "size_dict": dict(src["size_dict"]), "twin": "term-permuted"})
+        elif len(src["output"]) >= 2 and r_tw < 0.7:
             o = list(src["output"])
             for _k in range(6):
                 sw.shuffle(o)
@@ -191,6 +204,8 @@ def gen_case(prop, seed, tier):
                          "size_dict": {m[k]: v for k, v in src["size_dict"].items()}, "twin": "renamed"})
     hs = sorted(_hardness(q["inputs"]) for q in pool)
     cutoff = (hs[len(hs) // 2 - 1] + hs[len(hs) // 2]) / 2 + 0.01
+    if sw.random() < 0.3:
+        cutoff = 1.0  # everything (also nested sub-contractions) takes the hyper route
     nthreads = sw.choice([1, 2, 2, 3, 3])
     threads = []
     for t in range(nthreads):
